@@ -6,11 +6,14 @@ store unchanged.
 The two backends are tied to ONE reference model (`Eru.Store.step Flavour.ref`) by the
 three-way correspondence check (harness/store): after every operation of a generated sequence,
 each backend's result and raw key space must equal the reference's.  The theorems below are
-about that reference: failing operations change nothing (`create_atomic`,
-`failed_op_unchanged`), the reference is a function of the history (`run_deterministic`), and
-any two implementations that each simulate the reference step by step return the same results
-on every operation sequence (`refines_agree`) — which is how "both backends agree with the
-reference on all observations" yields "the backends agree with each other".
+about that reference: `BatchCreate` fails exactly when one of its keys exists
+(`batchCreate_fails_iff`), on success it writes all requested keys and nothing else
+(`create_success_writes_all`, `create_success_frame`), failing operations change nothing
+(`create_atomic`, `failed_op_unchanged` — true by construction of the reference: whether the REAL
+backends are atomic is established by the oracle on their read-backs, `C23:create-not-atomic`,
+not by these theorems), and an implementation that simulates the reference in the etcd flavour
+and one that simulates it in the Redis flavour return the same results on every sequence that
+avoids the one recorded divergence (`backends_agree`, guard `Guarded`).
 -/
 namespace Eru.Props.C23
 open Eru.Store
@@ -93,11 +96,6 @@ example :
                                 (.nodePod "p2" "n1", .node (exNode "p2"))] with
      | .error .keyExists => true | _ => false) = true := by decide
 
-/-- **run_deterministic**: the results of a sequence are a function of the sequence. -/
-theorem run_deterministic (fl : Flavour) (s : St) (ops : List Op) :
-    ∀ r₁ r₂, r₁ = run fl s ops → r₂ = run fl s ops → r₁ = r₂ := by
-  intro r₁ r₂ h₁ h₂; rw [h₁, h₂]
-
 /-- on success `BatchCreate` wrote the requested keys: every requested key is present -/
 theorem create_success_writes_all (s s' : St) (data : List (Key × Val))
     (h : batchCreate s data = .ok s') : ∀ k ∈ data.map (·.1), s'.kv.has k = true := by
@@ -116,5 +114,85 @@ theorem create_success_frame (s s' : St) (data : List (Key × Val))
   split at h
   · cases h
   · cases h; exact KV.get_putAll_not_mem _ _ _ hk
+
+/-- `BatchCreate` fails exactly when one of the requested keys exists, and then with `keyExists` -/
+theorem batchCreate_fails_iff (s : St) (data : List (Key × Val)) :
+    (∃ k ∈ data.map (·.1), s.kv.has k = true) ↔ batchCreate s data = .error .keyExists := by
+  unfold batchCreate
+  constructor
+  · intro ⟨k, hk, hh⟩
+    have : data.any (fun kv => s.kv.has kv.1) = true := by
+      simp only [List.mem_map] at hk
+      obtain ⟨kv, hkv, rfl⟩ := hk
+      exact List.any_eq_true.mpr ⟨kv, hkv, hh⟩
+    simp [this]
+  · intro h
+    split at h
+    · rename_i hany
+      obtain ⟨kv, hkv, hh⟩ := List.any_eq_true.mp hany
+      exact ⟨kv.1, List.mem_map_of_mem hkv, hh⟩
+    · cases h
+
+/-- the only place where the backends' flavours differ: a node status report with a TTL for a
+    node that is not recorded -/
+def Guarded1 (s : St) : Op → Prop
+  | .setNodeStatus n _ ttl => ttl ≤ 0 ∨ s.kv.has (.node n) = true
+  | _ => True
+
+theorem flavour_step_agree (fl₁ fl₂ : Flavour) (s : St) (op : Op) (hg : Guarded1 s op) :
+    step fl₁ s op = step fl₂ s op := by
+  cases op <;> try rfl
+  case setNodeStatus n p ttl =>
+    simp only [Guarded1] at hg
+    simp only [step, setNodeStatus]
+    by_cases h0 : ttl = 0
+    · simp [h0]
+    · by_cases hneg : ttl < 0
+      · simp [h0, hneg]
+      · have hh : s.kv.has (.node n) = true := by
+          rcases hg with h | h
+          · omega
+          · exact h
+        simp [h0, hneg, bindStatus, hh]
+
+/-- a sequence none of whose steps (taken from the reference's states) is such a report -/
+def Guarded (fl : Flavour) : St → List Op → Prop
+  | _, [] => True
+  | s, op :: t => Guarded1 s op ∧ Guarded fl (step fl s op).1 t
+
+theorem refRun_flavour_agree (fl₁ fl₂ : Flavour) (ops : List Op) :
+    ∀ s, Guarded fl₁ s ops → refRun fl₁ s ops = refRun fl₂ s ops := by
+  induction ops with
+  | nil => intros; rfl
+  | cons op t ih =>
+    intro s hg
+    have hs := flavour_step_agree fl₁ fl₂ s op hg.1
+    simp only [refRun]
+    rw [← hs, ih _ hg.2]
+
+/-- **backends_agree**: an implementation that simulates the reference in the etcd flavour and
+    one that simulates it in the Redis flavour return the same result for every operation of
+    every sequence that does not report a TTL'd status for a missing node (the one recorded
+    divergence, D17d). -/
+theorem backends_agree {σ₁ σ₂} (I₁ : Impl σ₁) (I₂ : Impl σ₂)
+    (R₁ : σ₁ → St → Prop) (R₂ : σ₂ → St → Prop)
+    (h₁ : Refines I₁ Flavour.etcd R₁) (h₂ : Refines I₂ Flavour.redis R₂) (ops : List Op)
+    (hg : Guarded Flavour.etcd St.empty ops) :
+    I₁.run I₁.init ops = I₂.run I₂.init ops := by
+  rw [refines_run I₁ _ R₁ h₁ ops _ _ h₁.init, refines_run I₂ _ R₂ h₂ ops _ _ h₂.init]
+  exact refRun_flavour_agree _ _ ops _ hg
+
+/-- instantiated with two different flavours: the two flavour models themselves -/
+example (ops : List Op) (hg : Guarded Flavour.etcd St.empty ops) :
+    (refImpl Flavour.etcd).run St.empty ops = (refImpl Flavour.redis).run St.empty ops :=
+  backends_agree (refImpl .etcd) (refImpl .redis) (fun s t => s = t) (fun s t => s = t)
+    { init := rfl, step := by intro s t op h; subst h; exact ⟨rfl, rfl⟩ }
+    { init := rfl, step := by intro s t op h; subst h; exact ⟨rfl, rfl⟩ } ops hg
+
+/-- and without the guard they do differ -/
+example : (refImpl Flavour.etcd).run St.empty [.setNodeStatus "n1" "p1" 3, .getNodeStatus "n1"] ≠
+          (refImpl Flavour.redis).run St.empty [.setNodeStatus "n1" "p1" 3, .getNodeStatus "n1"] := by
+  simp [Impl.run, refImpl, step, setNodeStatus, bindStatus, Flavour.etcd, Flavour.redis, Flavour.ref,
+    St.empty, KV.has, KV.get, liftSt, liftRd, getNodeStatus, KV.put]
 
 end Eru.Props.C23
